@@ -1,6 +1,7 @@
 import Hgxv.Proofs.C20
 import Hgxv.Proofs.C20Reads
 import Hgxv.Proofs.C20Eigen
+import Hgxv.Proofs.C20Cent
 /-! # C20 - centralities are the advertised functionals of the hypergraph's projections  (PARTIAL by nature)
 
 Proved here: the glue of `hypergraphx/measures/s_centralities.py` for EVERY centrality routine
@@ -455,3 +456,122 @@ example : let H : HG Nat := { nodes := [0, 1, 2, 3, 4, 5], edges := [[0, 1, 2], 
     ((bipGraph id H).edges.filter fun p => p.1 = nameE 4) = [] ∧ (bipGraph id H).edges.length = 9 ∧
     (lineGraph id H 1).verts = [0, 1, 2, 3, 4] ∧ (lineGraph id H 1).edges = [(0, 1), (1, 2), (2, 3)] := by
   decide +kernel
+
+
+/-! ## Extension round: the networkx routines themselves (`Model/C20Cent.lean`: `closeness`, `betweenness` in exact rationals,
+compared with `nx.closeness_centrality` / `nx.betweenness_centrality` and - level by level - with networkx's own
+breadth-first search on every run) are no longer only a parameter: what they compute is proved here. `reachIn g s k v` =
+"there is a walk of length `k` from `s` to `v`"; `walkCount g s k v` = the number of such walks (`σ`-recursion of Brandes). -/
+
+/-- `distSigma (levels g s) v = some (d, c)` (what the breadth-first search of networkx yields from source `s`): `d < |V|` is the
+length of a SHORTEST walk from `s` to `v`, `c` is the number of walks of that length, i.e. the number of shortest paths, and it
+obeys `σ_0(v) = [v = s]`, `σ_{k+1}(v) = Σ_{u ~ v} σ_k(u)`; `none` iff no walk of length `< |V|` exists. -/
+theorem C20_dist_spec {V : Type} [DecidableEq V] (g : Graph V) (s v : V) :
+    (∀ d c, distSigma (levels g s) v = some (d, c) ↔
+      d < g.verts.length ∧ reachIn g s d v ∧ (∀ j, j < d → ¬ reachIn g s j v) ∧ c = walkCount g s d v) ∧
+    (distSigma (levels g s) v = none ↔ ∀ k, k < g.verts.length → ¬ reachIn g s k v) ∧
+    (∀ k u, reachIn g s k u ↔ 0 < walkCount g s k u) ∧
+    (∀ k u, walkCount g s (k + 1) u = if u ∈ g.verts then ((nbrs g u).map (walkCount g s k)).sum else 0) :=
+  ⟨distSigma_spec g s v, distSigma_none g s v, reachIn_iff_walkCount g s, fun _ _ => rfl⟩
+
+example : let g : Graph Nat := { verts := [0, 1, 2, 3, 4], edges := [(0, 1), (1, 2), (0, 3), (3, 2)] }
+    distSigma (levels g 0) 2 = some (2, 2) ∧ distSigma (levels g 0) 4 = none ∧ walkCount g 0 2 2 = 2 := by decide +kernel
+
+/-- the computed distance is a metric on each component: symmetric (also in "unreachable"), and it satisfies the triangle
+inequality -/
+theorem C20_dist_metric {V : Type} [DecidableEq V] (g : Graph V) (s u t : V) :
+    dist g s t = dist g t s ∧
+    (∀ a b c, dist g s u = some a → dist g u t = some b → dist g s t = some c → c ≤ a + b) :=
+  ⟨dist_symm g s t, fun a b c => dist_triangle g s u t a b c⟩
+
+example : let g : Graph Nat := { verts := [0, 1, 2, 3, 4], edges := [(0, 1), (1, 2), (0, 3), (3, 2)] }
+    dist g 1 3 = some 2 ∧ dist g 3 1 = some 2 ∧ dist g 1 0 = some 1 ∧ dist g 0 3 = some 1 ∧ dist g 4 0 = none := by decide +kernel
+
+/-- `nx.closeness_centrality(G)[v]` (Wasserman-Faust, as `s_closeness` calls it): with `D` the distances from `v` to the vertices it
+reaches (itself included), the value is `(|D|-1)/ΣD · (|D|-1)/(n-1)`, and 0 when nothing else is reached or `n ≤ 1`. -/
+theorem C20_closeness_formula {V : Type} [DecidableEq V] (g : Graph V) (v : V) :
+    closeness g v =
+      if 0 < (g.verts.filterMap (dist g v)).sum ∧ 1 < g.verts.length then
+        ((((g.verts.filterMap (dist g v)).length - 1 : Nat) : Rat) / (((g.verts.filterMap (dist g v)).sum : Nat) : Rat)) *
+        ((((g.verts.filterMap (dist g v)).length - 1 : Nat) : Rat) / ((g.verts.length - 1 : Nat) : Rat))
+      else 0 :=
+  closeness_formula g v
+
+example : let g : Graph Nat := { verts := [0, 1, 2, 3, 4], edges := [(0, 1), (1, 2), (2, 3)] }
+    g.verts.filterMap (dist g 0) = [0, 1, 2, 3] ∧ closeness g 0 = 3 / 8 := by decide +kernel
+
+/-- both routines (and the degree) read the vertex list and the edge SET only - not the order or multiplicity in which
+networkx received the edges -/
+theorem C20_nx_congr {V : Type} [DecidableEq V] (g g' : Graph V) (hv : g.verts = g'.verts)
+    (he : ∀ e, e ∈ g.edges ↔ e ∈ g'.edges) :
+    closeness g = closeness g' ∧ betweenness g = betweenness g' ∧ degree g = degree g' :=
+  ⟨closeness_congr g g' hv he, betweenness_congr g g' hv he, by funext v; unfold degree; rw [nbrs_congr g g' hv he]⟩
+
+example : let g : Graph Nat := { verts := [0, 1, 2], edges := [(0, 1), (1, 2)] }
+    let g' : Graph Nat := { verts := [0, 1, 2], edges := [(1, 2), (0, 1), (1, 2)] }
+    g.edges ≠ g'.edges ∧ (∀ e, e ∈ g.edges ↔ e ∈ g'.edges) ∧ betweenness g 1 = 1 ∧ betweenness g' 1 = 1 := by
+  refine ⟨by decide, ?_, by decide +kernel, by decide +kernel⟩
+  intro e; grind
+
+/-- `C20_relabel_nodes` WITHOUT its hypothesis on `cent`, for the two routines the code calls: the node versions of the
+s-centralities are carried along unchanged by an injective relabelling of the nodes. -/
+theorem C20_relabel_nodes_nx {α β : Type} [DecidableEq α] [DecidableEq β] (f : α → β) (srt : List α → List α)
+    (srt' : List β → List β) (H : HG α) (h : RelabelHyp f srt srt' H) :
+    sNodesItems closeness srt' (H.relabel f (relKey f srt'))
+      = (sNodesItems closeness srt H).map (List.map fun p => (Sum.map f (relKey f srt') p.1, p.2)) ∧
+    sNodesItems betweenness srt' (H.relabel f (relKey f srt'))
+      = (sNodesItems betweenness srt H).map (List.map fun p => (Sum.map f (relKey f srt') p.1, p.2)) :=
+  ⟨(C20_relabel_nodes f srt srt' H h closeness fun g g' hv hp => closeness_congr g g' hv fun _ => hp.mem_iff).2.2,
+   (C20_relabel_nodes f srt srt' H h betweenness fun g g' hv hp => betweenness_congr g g' hv fun _ => hp.mem_iff).2.2⟩
+
+/-- `C20_edges_reads` WITHOUT its hypothesis on `cent`: on coherent readings `s_closeness` / `s_betweenness` as the loops of
+`line_graph` + the networkx routine compute them give every listed hyperedge exactly one value, that of its vertex in the
+listing-level s-line graph. -/
+theorem C20_edges_reads_nx {α : Type} [DecidableEq α] (srt : List α → List α) (R : Reads α) (hc : Coherent srt R) (s : Nat) :
+    sEdgesR closeness srt R s = some (edgeItems closeness srt ⟨R.inc.map (·.1), R.edges⟩ s) ∧
+    sEdgesR betweenness srt R s = some (edgeItems betweenness srt ⟨R.inc.map (·.1), R.edges⟩ s) :=
+  ⟨(C20_edges_reads closeness (fun g g' hv he v => by rw [closeness_congr g g' hv he]) srt R hc s).2,
+   (C20_edges_reads betweenness (fun g g' hv he v => by rw [betweenness_congr g g' hv he]) srt R hc s).2⟩
+
+/-- a vertex without neighbours gets closeness 0 and betweenness 0; a vertex with exactly ONE neighbour (a leaf) lies on no
+shortest path between two other vertices: betweenness 0 -/
+theorem C20_isolated_leaf {V : Type} [DecidableEq V] (g : Graph V) (v : V) :
+    (nbrs g v = [] → closeness g v = 0 ∧ betweenness g v = 0) ∧
+    (∀ u, nbrs g v = [u] → betweenness g v = 0) :=
+  ⟨fun h => ⟨closeness_isolated g v h, betweenness_isolated g v h⟩, fun u h => betweenness_leaf g v u h⟩
+
+example : let g : Graph Nat := { verts := [0, 1, 2, 3, 4], edges := [(0, 1), (1, 2), (2, 3)] }
+    nbrs g 4 = [] ∧ nbrs g 0 = [1] ∧ nbrs g 1 = [0, 2] ∧ betweenness g 1 = 1 / 3 := by decide +kernel
+
+/-- the hyperedge without members gets the value 0 from `s_closeness` and `s_betweenness`, for every `s` (it is an isolated
+vertex of the s-line graph, `C20_memberless`) -/
+theorem C20_memberless_value {α : Type} [DecidableEq α] (srt : List α → List α) (H : HG α) (s i : Nat)
+    (hs : srt [] = []) (hi : H.edges[i]? = some []) :
+    closeness (lineGraph srt H s) i = 0 ∧ betweenness (lineGraph srt H s) i = 0 := by
+  have hl : ∀ b : List α, linked s ([] : List α) b = false ∧ linked s b ([] : List α) = false :=
+    (C20_memberless srt H s).2.2.2.1
+  have hmi : (H.edges.map srt)[i]? = some [] := by rw [List.getElem?_map, hi, Option.map_some, hs]
+  have hn : nbrs (lineGraph srt H s) i = [] := by
+    unfold nbrs
+    rw [List.filter_eq_nil_iff]
+    intro j _ hj
+    simp only [decide_eq_true_eq] at hj
+    have hadj := hj.2
+    unfold adjacent at hadj
+    rw [List.any_eq_true] at hadj
+    obtain ⟨e, he, h⟩ := hadj
+    simp only [decide_eq_true_eq] at h
+    rcases h with ⟨h1, h2⟩ | ⟨h1, h2⟩
+    · have he' : (j, i) ∈ lineEdges s (idTable srt H.edges) := by rw [← h1, ← h2]; exact he
+      obtain ⟨_, a, b, _, hb, hab⟩ := (mem_lineEdges_idTable s srt H.edges j i).mp he'
+      rw [hmi] at hb; cases hb
+      rw [(hl a).2] at hab; cases hab
+    · have he' : (i, j) ∈ lineEdges s (idTable srt H.edges) := by rw [← h1, ← h2]; exact he
+      obtain ⟨_, a, b, ha, _, hab⟩ := (mem_lineEdges_idTable s srt H.edges i j).mp he'
+      rw [hmi] at ha; cases ha
+      rw [(hl b).1] at hab; cases hab
+  exact ⟨closeness_isolated _ i hn, betweenness_isolated _ i hn⟩
+
+example : let H : HG Nat := { nodes := [0, 1, 2, 3, 4, 5], edges := [[0, 1, 2], [2, 3], [3, 4, 5], [5], []] }
+    H.edges[4]? = some [] ∧ closeness (lineGraph id H 1) 4 = 0 ∧ closeness (lineGraph id H 1) 1 = 9 / 16 := by decide +kernel
+
